@@ -11,8 +11,15 @@ import (
 
 // Pointer reachability for the C03 purity obligation "the result of Merge is independent of
 // the input profiles": collect every mutable memory cell (pointer targets, slice elements, map
-// headers) reachable from a value, exported and unexported fields alike. Strings are
-// immutable and skipped; zero-length slices own no cells.
+// headers) reachable from a value, exported and unexported fields alike — the walk is by
+// reflection over the types, so EVERY pointer-, slice- and map-typed field reachable from a
+// profile is covered without being named: SampleType/PeriodType pointers, the Sample, Mapping,
+// Location and Function slices and their targets, Sample.Location/Value, the Label/NumLabel/
+// NumUnit maps and the slices stored in them, Location.Line (and Line.Function), Comments, and
+// the unexported encoding scratch fields. Strings are immutable and skipped. A slice owns the
+// cells of its whole backing array from index 0 to its capacity: the spare capacity behind len
+// is recorded too (not followed), so that `append(in.X[:0], …)` and `in.X[:k]` count as shared
+// memory even when the visible elements are disjoint or the shared slice is empty.
 
 type reachSet map[unsafe.Pointer]string // cell -> path (indices erased) by which it was first reached
 
@@ -49,7 +56,7 @@ func walkReach(v reflect.Value, path string, rs reachSet, visiting map[unsafe.Po
 			walkReach(v.Field(i), path+"."+t.Field(i).Name, rs, visiting)
 		}
 	case reflect.Slice:
-		if v.IsNil() || v.Len() == 0 || v.Type().Elem().Size() == 0 {
+		if v.IsNil() || v.Cap() == 0 || v.Type().Elem().Size() == 0 {
 			return
 		}
 		for i := 0; i < v.Len(); i++ {
@@ -59,6 +66,16 @@ func walkReach(v reflect.Value, path string, rs reachSet, visiting map[unsafe.Po
 				rs[p] = path + "[]"
 			}
 			walkReach(e, path+"[]", rs, visiting)
+		}
+		if v.Cap() > v.Len() {
+			// spare capacity: cells an append would write to (addresses only, never dereferenced)
+			base, sz := v.UnsafePointer(), v.Type().Elem().Size()
+			for i := v.Len(); i < v.Cap(); i++ {
+				p := unsafe.Add(base, uintptr(i)*sz)
+				if _, ok := rs[p]; !ok {
+					rs[p] = path + "[cap]"
+				}
+			}
 		}
 	case reflect.Array:
 		for i := 0; i < v.Len(); i++ {
@@ -78,6 +95,27 @@ func walkReach(v reflect.Value, path string, rs reachSet, visiting map[unsafe.Po
 		}
 	}
 }
+
+// cellKinds is the set of field kinds that own at least one cell in rs: the last component of
+// the path by which the cell was first reached ("Label{}", "Label{}[]", "Line[]", "Comments[]",
+// "PeriodType", ...). Used to measure which parts of the aliasing surface a case exercises.
+func (rs reachSet) cellKinds() map[string]bool {
+	ks := map[string]bool{}
+	for _, path := range rs {
+		if i := strings.LastIndex(path, "."); i >= 0 {
+			path = path[i+1:]
+		}
+		ks[path] = true
+	}
+	return ks
+}
+
+// c03AliasSurface: the field kinds of profile.Profile through which a result could share memory
+// with an input. A run must exercise every one of them (cells on that path both in some input
+// and in the result), otherwise the "not aliased" verdict for that field kind is vacuous.
+var c03AliasSurface = []string{"SampleType[]", "PeriodType", "Sample[]", "Location[]", "Value[]",
+	"Label{}", "Label{}[]", "NumLabel{}", "NumLabel{}[]", "NumUnit{}", "NumUnit{}[]",
+	"Mapping[]", "Mapping", "Line[]", "Function", "Function[]", "Comments[]"}
 
 // aliasPaths returns the (sorted, distinct) paths in out by which a cell of in is reached.
 func aliasPaths(out, in reachSet) []string {
